@@ -165,3 +165,119 @@ Proof.
     + apply (copies_tops _ _ _ _ _ _ ND); [exact Hsub_in|exact Hcs].
     + discriminate.
 Qed.
+
+(* ------------------------------------------------------------------ *)
+(* add(tree) with the tree's own nodes as target (only a shallow copy can succeed there) *)
+
+(* how op_add_tree resolves `before` against the present child list *)
+Definition tree_jb (b : before) (nch : nat) : option nat :=
+  match b with BTrue => Some 0 | BIdx z => Some (py_index z nch) | _ => None end.
+Definition tree_b' (b : before) (nch : nat) : before :=
+  match tree_jb b nch with Some j => BIdx (Z.of_nat j) | None => b end.
+
+Lemma Forall2_len {A B} (R : A -> B -> Prop) l1 l2 : Forall2 R l1 l2 -> length l1 = length l2.
+Proof. induction 1; cbn; congruence. Qed.
+
+(* the loop of add(tree): whatever `before` is, the copies end up as one block, in source order *)
+Lemma add_tree_block b ch xs0 :
+  (forall s, b = BNode s -> xs0 <> [] -> before_ok (NNode s) ch = true /\ Forall (fun u => rid u <> s) xs0) ->
+  exists a c, ch = a ++ c /\
+    place_all (norm_before (tree_b' b (length ch))) xs0 ch =
+      a ++ (match tree_jb b (length ch) with Some _ => rev xs0 | None => xs0 end) ++ c /\
+    block_pos b a c (match xs0 with [] => false | _ => true end).
+Proof.
+  intros Hnode. unfold tree_b'. destruct b as [| | |z|s]; cbn [tree_jb norm_before].
+  - exists ch, []. rewrite place_all_app, !app_nil_r. repeat split.
+  - exists [], ch. rewrite place_all_idx by lia. cbn [firstn skipn app]. repeat split.
+  - exists ch, []. rewrite place_all_app, !app_nil_r. repeat split.
+  - set (j := py_index z (length ch)). assert (Hj : j <= length ch) by apply py_index_le.
+    exists (firstn j ch), (skipn j ch). rewrite place_all_idx by exact Hj. rewrite firstn_skipn.
+    refine (conj eq_refl (conj eq_refl _)). cbn [block_pos]. rewrite firstn_skipn, firstn_length. fold j. lia.
+  - destruct xs0 as [|x0 xs1].
+    + exists ch, []. cbn [place_all fold_left]. rewrite !app_nil_r. refine (conj eq_refl (conj eq_refl _)).
+      cbn [block_pos]. discriminate.
+    + destruct (Hnode s eq_refl) as (Hb & Hf); [discriminate|].
+      cbn [before_ok] in Hb. destruct (index_by_id s ch) as [j|] eqn:Ei; [|discriminate].
+      destruct (index_by_id_spec s ch j Ei) as (a & t0 & c' & -> & _ & Rt & Fa).
+      exists a, (t0 :: c'). rewrite place_all_node by assumption.
+      refine (conj eq_refl (conj eq_refl _)). cbn [block_pos]. intros _. exists t0, c'. auto.
+Qed.
+
+Theorem add_tree_same w ti p b deep r w' t ch :
+  op_add_tree w ti p ti b deep = (Ok r, w') ->
+  get_tree w ti = Some t -> NoDup (ids (forest_of t)) -> (forall n, In n (ids (forest_of t)) -> n < next w) ->
+  children_of p (forest_of t) = Some ch ->
+  exists t' pq a c xs,
+    get_tree w' ti = Some t' /\ parent_path p (forest_of t) = Some pq /\ ch = a ++ c /\
+    get_ch pq (forest_of t') = Some (a ++ xs ++ c) /\
+    (* the copies of the top-level nodes AS THEY WERE, in source order *)
+    Forall2 (copy_rel (typed t) (deep_tree deep) (default_kind t None) (next w) (next w')) (forest_of t) xs /\
+    block_pos b a c (match forest_of t with [] => false | _ => true end) /\
+    NoDup (ids (forest_of t')) /\
+    subseq (rows 0 (forest_of t)) (rows 0 (forest_of t')).
+Proof.
+  intros H Et ND Hlt Hch.
+  destruct (add_tree_rows w ti p ti b deep r w' t H Et) as (t'' & Et'' & Hsub & _).
+  unfold op_add_tree in H. rewrite Et, Hch in H.
+  destruct (typed t && negb (typed t)); [discriminate|].
+  destruct (any_collides t p t (map rid (forest_of t))); [discriminate|].
+  set (dp := match deep with Some x => Some x | None => Some true end) in *.
+  assert (Edp : deep_of dp = deep_tree deep) by (destruct deep as [[|]|]; reflexivity).
+  destruct (any_into_own_branch ti ti t (map rid (forest_of t)) p dp) eqn:Eown; [discriminate|].
+  fold (tree_jb b (length ch)) in H. fold (tree_b' b (length ch)) in H.
+  set (order := match tree_jb b (length ch) with Some _ => rev (map rid (forest_of t)) | None => map rid (forest_of t) end) in *.
+  destruct (add_nodes w ti p ti order (tree_b' b (length ch)) dp []) as [[r0|e] w0] eqn:EA; [|discriminate].
+  injection H as _ <-.
+  unfold children_of in Hch. destruct (parent_path p (forest_of t)) as [pq|] eqn:Ep; [|discriminate].
+  assert (Hget : forall c, In c (forest_of t) -> get_node (rid c) (forest_of t) = Some c).
+  { intros c Hc. apply get_node_unique; auto. now apply in_pre_f_top. }
+  assert (Hord : forall s, In s order -> exists c, In c (forest_of t) /\ rid c = s).
+  { intros s Hs. unfold order in Hs. destruct (tree_jb b (length ch)); [apply in_rev in Hs|];
+      apply in_map_iff in Hs; destruct Hs as (c & <- & Hc); now exists c. }
+  destruct (add_nodes_same ti p (tree_b' b (length ch)) dp (forest_of t) order w [] r0 w0 t pq ch EA Et ND Hlt Ep Hch)
+    as (xs0 & t' & _ & Et' & Hcs & Hg & ND' & _).
+  - intros s Hs. destruct (Hord s Hs) as (c & Hc & <-). exists c, c. now rewrite (Hget c Hc).
+  - rewrite Edp. intros Hd s s0 Hs Hs0. destruct (Hord s Hs) as (c & Hc & <-).
+    rewrite (Hget c Hc) in Hs0. injection Hs0 as <-.
+    unfold any_into_own_branch in Eown. assert (dp = Some true) as Edp2.
+    { unfold dp. destruct deep as [[|]|]; try reflexivity. discriminate. }
+    rewrite Edp2, Nat.eqb_refl in Eown. cbn [andb] in Eown.
+    intros Hin. assert (X : existsb (fun s => is_desc_or_self s p (forest_of t)) (map rid (forest_of t)) = true).
+    { apply existsb_exists. exists (rid c). split; [now apply in_map|]. unfold is_desc_or_self. rewrite (Hget c Hc).
+      apply existsb_exists. exists p. split; [exact Hin|apply Nat.eqb_refl]. }
+    rewrite X in Eown. discriminate.
+  - rewrite Et' in Et''. injection Et'' as <-. rewrite Edp in Hcs.
+    (* the copies, in the order they were made, correspond to [order] *)
+    set (onodes := match tree_jb b (length ch) with Some _ => rev (forest_of t) | None => forest_of t end).
+    assert (Eo : order = map rid onodes).
+    { unfold order, onodes. destruct (tree_jb b (length ch)); [now rewrite map_rev|reflexivity]. }
+    rewrite Eo in Hcs.
+    assert (HF0 : Forall2 (copy_rel (typed t) (deep_tree deep) (default_kind t None) (next w) (next w0)) onodes xs0).
+    { apply (copies_tops _ _ _ _ _ _ ND); [|exact Hcs]. intros y Hy. apply in_pre_f_top.
+      unfold onodes in Hy. destruct (tree_jb b (length ch)); [now apply in_rev|exact Hy]. }
+    destruct (add_tree_block b ch xs0) as (a & c & Ech & Epl & Hpos).
+    + intros s -> Hne. split.
+      * apply (add_nodes_before_ok ti p ti (BNode s) dp order w [] r0 w0 t pq ch); auto.
+        intros E0. rewrite E0 in Eo. destruct onodes; [|discriminate]. inversion HF0; subst. congruence.
+      * apply Forall_forall. intros x Hx. destruct (Forall2_In_r _ _ _ x HF0 Hx) as (c0 & _ & Hc0).
+        apply copy_rel_fresh in Hc0. intros Es.
+        assert (Hb : before_ok (NNode s) ch = true).
+        { apply (add_nodes_before_ok ti p ti (BNode s) dp order w [] r0 w0 t pq ch); auto.
+          intros E0. rewrite E0 in Eo. destruct onodes; [|discriminate]. inversion HF0; subst. destruct Hx. }
+        cbn [before_ok] in Hb. destruct (index_by_id s ch) as [j|] eqn:Ei; [|discriminate].
+        destruct (index_by_id_spec s ch j Ei) as (a0 & t0 & c' & E1 & _ & Rt & _).
+        assert (s < next w).
+        { apply Hlt. rewrite <- Rt. unfold ids. apply in_map. apply (get_ch_pre pq (forest_of t) ch Hch).
+          apply in_pre_f_top. rewrite E1. apply in_app_iff. right. now left. }
+        lia.
+    + rewrite Epl in Hg.
+      exists t', pq, a, c, (match tree_jb b (length ch) with Some _ => rev xs0 | None => xs0 end).
+      refine (conj Et' (conj eq_refl (conj Ech (conj Hg (conj _ (conj _ (conj ND' Hsub))))))).
+      * unfold onodes in HF0. destruct (tree_jb b (length ch)); [|exact HF0].
+        apply Forall2_rev' in HF0. now rewrite rev_involutive in HF0.
+      * assert (Enil : match xs0 with [] => false | _ => true end = match forest_of t with [] => false | _ => true end).
+        { apply Forall2_len in HF0. unfold onodes in HF0.
+          assert (L : length (forest_of t) = length xs0) by (destruct (tree_jb b (length ch)); [now rewrite rev_length in HF0|exact HF0]).
+          destruct xs0, (forest_of t); cbn in L; try reflexivity; discriminate. }
+        rewrite <- Enil. exact Hpos.
+Qed.
